@@ -582,6 +582,8 @@ class OrbitElements(object):
         self.mean_anomaly = np.deg2rad(tle.mean_anomaly)
 
         self.mean_motion = tle.mean_motion * (np.pi * 2 / XMNPDA)
+        if not self.mean_motion > 0:
+            raise OrbitalError("Mean motion out of range: %e" % self.mean_motion)
         self.mean_motion_derivative = tle.mean_motion_derivative * \
             np.pi * 2 / XMNPDA ** 2
         self.mean_motion_sec_derivative = tle.mean_motion_sec_derivative * \
